@@ -12,6 +12,11 @@
         edim = <xname>~s<id>|o<n>~-|<s0,s1,..>/<o0,o1,..>~<xdesc>
         vlrs = <xuid>:<rid>:<xdesc>:<xdata>|...   or -
      -> fresh=T|F <step>;<step>...   step = ok|err:E @ <edims or -> @ <x all record bytes> @ <xname>:<x values>,... @ <vlrs>
+   hist2 <fmt> <init edims or -> <recsize> <x all bytes of all records> <vlrs> <T|F: extra-bytes VLR after the others> <op>;...
+        a LasData made from a PointFormat that already carries the init dimensions (init_ex); further ops
+             | C!<g>!<size>!<x standard blocks>   laspy.convert to point format g (the standard blocks of the result)
+             | U!<k> | U!-                    re-read of a file whose extra-bytes VLR keeps its first k descriptors / is absent
+     -> fresh=T|F <step0>;<step>;...   step0 = the initial state (ok@...) or err:E
    eb_enc <edim>          -> ok x<192 bytes> | err E
    eb_dec <x bytes>       -> ok <edim> | err E *)
 open Model
@@ -92,6 +97,9 @@ let op_of_tok t = match String.split_on_char '!' t with
   | ["T"; size; vals] -> AssignStd (values_of (int_of_string size) vals)
   | ["P"; ds; size; vals] -> SetPoints (List.map edim_of_tok (split_on '+' ds), values_of (int_of_string size) vals)
   | ["W"] -> RoundTrip
+  | ["C"; g; size; vals] -> Convert (z_of_string g, values_of (int_of_string size) vals)
+  | ["U"; "-"] -> Reread None
+  | ["U"; k] -> Reread (Some (z_of_string k))
   | _ -> failwith ("bad op " ^ t)
 let tok_of_state st =
   let fields = List.map (fun d ->
@@ -116,6 +124,20 @@ let dispatch cmd a =
     let steps = trace s0 ops in
     "fresh=" ^ (if fresh then "T" else "F") ^ " " ^
     (if steps = [] then "-" else String.concat ";" (List.map (fun (st, r) -> unit_res r ^ "@" ^ tok_of_state st) steps))
+  | "hist2" ->
+    let fmt = z_of_string a.(0) in
+    let ex = List.map edim_of_tok (split_on '+' a.(1)) in
+    let recs = values_of (int_of_string a.(2)) a.(3) in
+    let vl = vlrs_of_tok a.(4) in
+    let eb_last = a.(5) = "T" in
+    let ops = if Array.length a < 7 then [] else List.map op_of_tok (split_on ';' a.(6)) in
+    (match init_ex fmt ex recs vl eb_last with
+     | Err e -> "fresh=T err:" ^ err_name e
+     | Ok s0 ->
+       let fresh = ops_okb s0 ops in
+       let steps = trace s0 ops in
+       "fresh=" ^ (if fresh then "T" else "F") ^ " " ^
+       String.concat ";" (("ok@" ^ tok_of_state s0) :: List.map (fun (st, r) -> unit_res r ^ "@" ^ tok_of_state st) steps))
   | "eb_enc" -> res tok_of_bytes (enc_eb (edim_of_tok a.(0)))
   | "eb_dec" -> res tok_of_edim (dec_eb (bytes_of_tok a.(0)))
   | "std_names" -> String.concat "," (List.map tok_of_bytes (std_names (z_of_string a.(0))))
